@@ -117,6 +117,33 @@ def run(res, args):
                 res.violation({'kind': 'stack-exhausted', 'nesting_depth': depth, 'rc': rc,
                                'request': f'X2W 3 0 1 0 <SI document with {depth} nested <indication> elements>'}, f'stack-{depth}')
     res.coverage['stack_ladder_8MiB'] = stack_results
+
+    # ---- heap: size ladder on the plain build; peak resident set against the documented bound (linear in
+    # the length of the document after entity expansion; the harness holds the hex request and response too)
+    big = 200000 if quick else 2000000
+    ent = b'<!DOCTYPE si [<!ENTITY a "' + b'x' * 1000 + b'">]><si><indication>' + b'&a;' * (big // 1000) + b'</indication></si>'
+    shapes = {
+        'long-text': b'<si><indication>' + b'a' * big + b'</indication></si>',
+        'entity-expansion': ent,
+        'many-attributes-and-elements': b'<wml><card>' + b'<p align="left" mode="wrap">t</p>' * (big // 40) + b'</card></wml>',
+        'repeated-strings (string table)': b'<wml><card>' + b'<p>repeat me please</p><p>unknown-word-xyz</p>' * (big // 100) + b'</card></wml>',
+        'cdata': b'<si><indication><![CDATA[' + b'<&>' * (big // 3) + b']]></indication></si>',
+    }
+    heap = {}
+    for name, doc in shapes.items():
+        rc, out, rss = common.peak_rss(ph, f'X2W 3 0 1 0 {doc.hex()}\n', timeout=1800)
+        outlen = (len(out.split()[3]) // 2) if out.startswith('R 0 ; ') and len(out.split()) > 3 else 0
+        expanded = len(doc) + (big if name == 'entity-expansion' else 0)
+        bound = 8 * 2 ** 20 + 24 * (expanded + outlen)
+        heap[name] = {'input_bytes': len(doc), 'expanded_bytes': expanded, 'output_bytes': outlen, 'peak_rss_bytes': rss, 'bound': bound, 'rc': rc}
+        if rc != 0 or not out.startswith('R '):
+            res.violation({'kind': 'crash-on-large-input', 'shape': name, 'input_bytes': len(doc), 'rc': rc,
+                           'request': f'X2W 3 0 1 0 <{name}, {len(doc)} bytes>'}, f'heap-crash-{len(heap)}')
+        elif rss is not None and rss > bound:
+            res.violation({'kind': 'heap-bound', 'shape': name, 'input_bytes': len(doc), 'output_bytes': outlen, 'peak_rss_bytes': rss, 'bound_bytes': bound,
+                           'explain': 'peak memory is not linear in the length of the expanded document (bound: 8 MiB + 24 x (expanded input + output))',
+                           'request_prefix': f'X2W 3 0 1 0 {doc[:60].hex()}...'}, f'heap-{len(heap)}')
+    res.coverage['heap_ladder'] = heap
     if corr_diff and not res.violations:
         i = corr_diff[0]
         res.violation({'kind': 'correspondence', 'stream': 'X2W', 'request': all_lines[i][:4000], 'impl': (impl[i] or '')[:600], 'model': (model[i] or '')[:600], 'differences': len(corr_diff)},
